@@ -1,10 +1,15 @@
-\* simulation: random histories of 14 calls
+\* simulation: random histories of 14 calls (after nothing / a pool with one / with three reservations, the middle one released)
 SPECIFICATION Spec
 CONSTANTS
-  Cell = 128
+  ResSizes = {40, 100, 300}
+  Aligns = {32, 128, 512}
+  ResizeTo = {0, 200, 512, 1024}
+  MaxPoolBytes = 2048
   Sizes = {16, 48}
-  MaxCells = 3
-  MaxBufs = 8
+  MaxLiveRes = 4
+  MaxBufs = 6
   MaxPools = 2
   MaxHist = 14
   HostPtrImpl = "counted"
+  Prefixes <- SimPrefixes
+CONSTRAINT PrefixOK
